@@ -263,10 +263,15 @@ class grow:
     def _only_the_factorys_own_failure_or_a_child_without_demand(c, self, target, exc):
         # what leaves _grow is the factory's own exception (it may raise anything), or the AssertionError about the factory's product - and that
         # one fires only when a freshly spawned child (already in the hatchery) has no demand
+        dem1 = fld(c, "demand", c.new_heap)
+        if getattr(c.ctx, "concrete", False):
+            # evaluation on a concrete run (native search / replay; no ghost records there): the statement itself - an AssertionError only
+            # with a child without demand among the active ones; other exceptions are the factory's own
+            x = z3.Const("gax", Z.Val)
+            return z3.Or(c.Not(exc.isa("AssertionError")), z3.Exists([x], z3.And(z3.Select(H_of(self), x), R(dem1, x) <= 0)))
         sp = c.ctx.ghost.get("c15_spawned", [])
         if sp and sp[-1][0] == "raise" and z3.eq(z3.simplify(sp[-1][1].t), z3.simplify(exc.t)):
             return True
-        dem1 = fld(c, "demand", c.new_heap)
         if sp and sp[-1][0] == "return":
             w = sp[-1][1].t          # the child the factory handed out last: the witness
             return c.And(exc.isa("AssertionError"), z3.Select(H_of(self), w), R(dem1, w) <= 0)
